@@ -592,7 +592,8 @@ impl<'a> CG<'a> {
             }
             (Comb::Inspect, t) if sync && !matches!(t, Ty::Ref(_)) => {
                 let id = self.id();
-                let core = format!("ins::<{}>({})", t.name(), id);
+                // (bounds programs: half of the inspectors hold an `Rc`)
+                let core = if self.ns > 0.0 && self.depth == 0 && rb(self.rng, 0.5) { format!("ins_ns::<{}>({})", t.name(), id) } else { format!("ins::<{}>({})", t.name(), id) };
                 let o = self.maybe_cap(core, allow_cap);
                 Some(self.plain(c, vec![o], cur.clone()))
             }
